@@ -48,15 +48,21 @@ pub struct Cfg {
     pub fscr: Vec<Effect>,
     #[serde(default = "zero_s")]
     pub ty: String,
+    #[serde(default)]
+    pub items0: i64,
+    #[serde(default)]
+    pub ended0: bool,
+    #[serde(default)]
+    pub iscr: Vec<Effect>,
 }
 impl Cfg {
     fn is_default(&self) -> bool {
-        self.cap == -1 && self.strat == "restart" && !self.stream && self.tmo == 0 && !self.failto && !self.owning && self.sscr.is_empty() && self.pscr.is_empty() && self.fscr.is_empty() && self.ty == "0"
+        self.cap == -1 && self.strat == "restart" && !self.stream && self.tmo == 0 && !self.failto && !self.owning && self.sscr.is_empty() && self.pscr.is_empty() && self.fscr.is_empty() && self.ty == "0" && self.items0 == 0 && !self.ended0 && self.iscr.is_empty()
     }
 }
 impl Default for Cfg {
     fn default() -> Self {
-        Cfg { cap: -1, strat: "restart".into(), stream: false, tmo: 0, failto: false, owning: false, sscr: vec![], pscr: vec![], fscr: vec![], ty: "0".into() }
+        Cfg { cap: -1, strat: "restart".into(), stream: false, tmo: 0, failto: false, owning: false, sscr: vec![], pscr: vec![], fscr: vec![], ty: "0".into(), items0: 0, ended0: false, iscr: vec![] }
     }
 }
 
@@ -431,13 +437,29 @@ fn registered_name<const K: usize>() -> String {
 fn spawn_actor_k<const K: usize>(c: &str, o: &Op) -> Res {
     let ex = crate::actors::exec();
     WORLD.with(|w| {
-        w.borrow_mut().scripts.insert(o.a.clone(), ActorScripts { sscr: o.cfg.sscr.clone(), pscr: o.cfg.pscr.clone(), fscr: o.cfg.fscr.clone() })
+        w.borrow_mut().scripts.insert(o.a.clone(), ActorScripts { sscr: o.cfg.sscr.clone(), pscr: o.cfg.pscr.clone(), fscr: o.cfg.fscr.clone(), iscr: o.cfg.iscr.clone() })
     });
     ex.label_next_actor(&o.a);
     let cf = &o.cfg;
     let actor = H::<K>::new();
     let plain = cf.cap == -1 && cf.strat == "restart" && cf.tmo == 0 && !cf.failto && !cf.stream;
-    let hv = if plain && o.entry != "builder" {
+    let hv = if cf.stream {
+        let st = std::sync::Arc::new(std::sync::Mutex::new(crate::actors::StreamState { ready: cf.items0, next: 1, ended: cf.ended0, waker: None }));
+        WORLD.with(|w| w.borrow_mut().streams.insert(o.a.clone(), st.clone()));
+        let stream = crate::actors::HStream(st);
+        if cf.cap == -1 && o.entry == "trait" {
+            use hannibal::spawner::StreamSpawnable;
+            if cf.owning {
+                HandleV::Owning(Box::new(actor.spawn_owning_on_stream(stream).expect("spawn_owning_on_stream")))
+            } else {
+                HandleV::Addr(Box::new(actor.spawn_on_stream(stream).expect("spawn_on_stream")))
+            }
+        } else {
+            let base = hannibal::build(actor);
+            let b = if cf.cap >= 0 { base.bounded_on_stream(cf.cap as usize, stream) } else { base.on_stream(stream) };
+            if cf.owning { HandleV::Owning(Box::new(b.spawn_owning())) } else { HandleV::Addr(Box::new(b.spawn())) }
+        }
+    } else if plain && o.entry != "builder" {
         if cf.owning { HandleV::Owning(Box::new(actor.spawn_owning())) } else { HandleV::Addr(Box::new(actor.spawn())) }
     } else {
         let mut base = hannibal::build(actor);
@@ -478,6 +500,24 @@ async fn run_op(c: &str, n: i64, o: &Op) -> Res {
         "yield" => {
             YieldFut::new("op").await;
             r("ok", "none".into())
+        }
+        "feed" | "end_stream" => {
+            let st = WORLD.with(|w| w.borrow().streams.get(&o.a).cloned()).expect("harness: no stream for actor");
+            let w = {
+                let mut g = st.lock().unwrap();
+                if o.op == "feed" {
+                    if !g.ended {
+                        g.ready += o.d;
+                    }
+                } else {
+                    g.ended = true;
+                }
+                g.waker.take()
+            };
+            if let Some(w) = w {
+                w.wake();
+            }
+            r("ok", o.a.clone())
         }
         "sleep" => {
             let f = crate::actors::exec().sleep_ticks(o.d as u64);
